@@ -288,7 +288,7 @@ fn main() {
     let _ = Ty::U8;
     h.assume("decoding = the independent type-directed decoder of the harness (NR1/NRf numbers judged by exact rational arithmetic, strings with doubled quotes, definite-length blocks, bare character data, comma-separated composites)");
     h.assume("queries returning () are not generated (the statement calls value-less handlers commands)");
-    let cases = h.tier.pick(150_000, 12_000_000);
+    let cases = h.tier.pick(300_000, 12_000_000);
     h.check(
         "c04.values",
         "proptest tapes -> one query of the ty fixture (every integer width, f32/f64 from random bit patterns incl. NaN/inf/subnormal/-0, bool, &str / heapless::String / String with arbitrary UTF-8 weighted towards quotes and separators, Arbitrary blocks of length 0..3000 incl. 9/10/99/100/999/1000, Characters, Error, tuples of arity 2-4 incl. nested, heapless::Vec and slices of those) with a generated return value -> pass-through writer must see exactly: bytes that decode completely to the value, newline, one flush; heapless::Vec<u8,8192>, std Vec<u8> and process::<4096> must receive identical bytes; non-trivial = type extreme, non-finite/subnormal/zero float, string with quote/separator/newline, block at a digit-count boundary, composite",
@@ -296,7 +296,7 @@ fn main() {
         |h, st| h.tape_search("c04.values", cases, 120, st, |tape, st| value_prop(&model, &queries, tape, st)),
         |case| replay_tape(case, |tape, st| value_prop(&model, &queries, tape, st)),
     );
-    let cases = h.tier.pick(60_000, 1_500_000);
+    let cases = h.tier.pick(150_000, 1_500_000);
     h.check(
         "c04.messages",
         "proptest tapes -> messages of 1-4 absolute units mixing answering queries with commands, failing handlers, rejected arguments, wrong parameter counts and undefined headers: exactly one flushed, decodable response per successful query, in execution order, each after its handler and before the next one; nothing for the other units; same bytes through heapless::Vec and process; non-trivial = message with at least one silent and one answering unit",
